@@ -25,6 +25,10 @@ def rand_problem(rng, nmax=3, mmax=5):
             r = r + 0.1 * (x ** 2).sum()
         return r
     x0 = np.round(rng.normal(size=n), 2)
+    if kind == 0 and m > n and rng.random() < 0.25:
+        # warm start AT the minimiser of an inconsistent linear system: non-zero residual that no run can improve on
+        x0 = np.linalg.lstsq(A, b, rcond=None)[0]
+        return {"n": n, "m": m, "f": f, "x0": x0, "kind": "lin-warm", "A": A, "b": b}
     return {"n": n, "m": m, "f": f, "x0": x0, "kind": ["lin", "sin", "quad"][kind], "A": A, "b": b}
 
 
